@@ -2,6 +2,7 @@ import Aiorpcx.C18.Exact
 import Aiorpcx.C18.RoundTrip
 import Aiorpcx.C18.Defaults
 import Aiorpcx.C18.Pinned
+import Aiorpcx.C18.Helpers
 import Aiorpcx.Facts.C18
 /-!
 # C18 — property theorems
@@ -135,6 +136,16 @@ is 1–253 characters of dot-separated labels of 1–63 letters, digits, hyphens
 neither begin nor end with a hyphen and whose last label is not all digits — for every string. -/
 theorem hostname_exact (s : Str) : isValidHostnameStr cfg s = Spec.hostname s :=
   hostname_exact_of cfg label_test_facts numeric_test_facts facts_bounds.2.2 s
+
+/-- the same with the grammar spelled out (`hostname_grammar`: no model helper in the statement):
+accepted exactly the strings that are, ignoring one trailing dot, 1-253 characters of labels joined
+by dots, each label valid, the last one not all digits -/
+theorem hostname_exact_grammar (s : Str) :
+    isValidHostnameStr cfg s = true ↔
+      ∃ ls : List Str, ls ≠ [] ∧ (s = joinWith 46 ls ∨ s = joinWith 46 ls ++ [46]) ∧
+        (∀ l ∈ ls, Spec.label l = true) ∧ (ls.getLastD []).all Spec.isDigit = false ∧
+        1 ≤ (joinWith 46 ls).length ∧ (joinWith 46 ls).length ≤ 253 := by
+  rw [hostname_exact]; exact hostname_grammar s
 
 /-- non-strings: `TypeError` -/
 theorem hostname_type {α : Type} (v : PyVal α) :
